@@ -55,9 +55,9 @@ Theorem C05_current_term_rule : forall c o,
 Proof. exact current_term_rule. Qed.
 Print Assumptions C05_current_term_rule.
 
-(* Follower: commit' = min(LeaderCommit, lastIndex) only upward. *)
-Theorem C05_follower_commit : forall commit lc last, commit <= last ->
-  let c' := follower_commit commit lc last in commit <= c' /\ c' <= last /\ c' <= N.max commit lc.
+(* Follower: commit' = min(LeaderCommit, index of the request's last entry, lastIndex), only upward. *)
+Theorem C05_follower_commit : forall commit lc ln last,
+  let c' := follower_commit commit lc ln last in commit <= c' /\ (c' = commit \/ (c' <= lc /\ c' <= ln /\ c' <= last)).
 Proof. exact follower_commit_spec. Qed.
 Print Assumptions C05_follower_commit.
 
